@@ -44,7 +44,7 @@ REJECT = [
     ("QuantumFunctionError", "does not support adjoint"), ("QuantumFunctionError", "does not support backprop"),
     ("QuantumFunctionError", "device_vjp=True is not supported"), ("DeviceError", ""),
     ("ValueError", "Computing the gradient of"), ("ValueError", "grad_on_execution"),
-    ("NotImplementedError", "Broadcasting"), ("NotImplementedError", "broadcast"),
+    ("NotImplementedError", "does not support multiple measurements"), ("NotImplementedError", "Broadcasting"), ("NotImplementedError", "broadcast"),
     ("ValueError", "broadcast"), ("ValueError", "Hadamard"), ("ValueError", "hadamard"), ("ValueError", "aux"),
     ("ValueError", "does not support"), ("ValueError", "Can only differentiate"), ("ValueError", "Cannot differentiate"),
     ("QuantumFunctionError", "not supported"), ("DecompositionUndefinedError", ""),
@@ -60,7 +60,7 @@ def method_args(method, gen=None):
     if method == "spsa":
         return "spsa", {"h": 1e-4, "sampler_rng": gen}
     if method == "spsa-center":
-        return "spsa", {"h": 1e-3, "approx_order": 2, "strategy": "center", "sampler_rng": gen}
+        return "spsa", {"h": 1e-4, "approx_order": 2, "strategy": "center", "sampler_rng": gen}
     if method in ("hadamard", "reversed-hadamard"):
         return method, {"aux_wire": "aux"}
     return method, {}
@@ -117,11 +117,29 @@ def jacobian(spec, cfg, gen=None):
     raise KeyError(iface)
 
 
+SPSA_MAX_ARGS = 4
+SHIFT_LIKE = ("parameter-shift", "ps-broadcast", "finite-diff", "fd-center2", "spsa", "spsa-center")
+
+
+def culprit(circ, cfg):
+    """Names of input classes with a recorded (known) defect, so that their signature does not depend on the rest of the case."""
+    m = cfg["method"]
+    c = []
+    if "exp" in circ["w"] and m != "backprop":
+        c.append("exp-imaginary-coefficient")
+    if m == "adjoint" and circ["lab"] != "std" and ("cRY" in circ["w"] or circ["meas"] == "Ham"):
+        c.append("relabelled-wires+nontrainable-parameter")  # constant gate angle or Hamiltonian coefficients
+    return "|".join(c) or None
+
+
 def rejected(e):
     name, msg = type(e).__name__, str(e)
     for n, frag in REJECT:
         if name == n and frag in msg:
             return f"{name}:{frag or '*'}"
+        # under jax.jit the documented error surfaces inside a host callback and is wrapped by XLA
+        if name == "XlaRuntimeError" and frag and f"{n}: " in msg and frag in msg:
+            return f"{n}:{frag}"
     return None
 
 
@@ -175,6 +193,8 @@ def spsa_expectation(spec, cfg):
 def check(spec):
     circ, cfg = spec["c"], spec["cfg"]
     method = cfg["method"]
+    if method.startswith("spsa") and XD.n_args(circ) > SPSA_MAX_ARGS:
+        return skip("spsa: more than %d arguments (enumeration bound)" % SPSA_MAX_ARGS)
     try:
         if method.startswith("spsa"):
             J, info = spsa_expectation(circ, cfg)
@@ -183,18 +203,27 @@ def check(spec):
     except Exception as e:  # noqa: BLE001
         r = rejected(e)
         if r is None:
+            cul = culprit(circ, cfg)
+            if cul:
+                return bad(f"raised:{cfg['iface']}:{method}:{cul}:{type(e).__name__}", f"{type(e).__name__}: {e}"[:300], "Jacobian or documented rejection")
+            if method == "adjoint" and type(e).__name__ == "ValueError" and "expected 'arg_specs' dtype" in str(e) and "complex128" in str(e):
+                return bad(f"raised:{cfg['iface']}:adjoint:state-measurement-complex-cast", f"{type(e).__name__}: {e}"[:300],
+                           "Jacobian or documented rejection")
             raise
         return skip(f"{method}:{r}")
     Jref = XD.ref_jacobian(circ)
     tol = TOL.get(method, 1e-7)
     cls = f"{cfg['iface']}:{method}" + (":goe=%s" % cfg["goe"] if cfg.get("goe", "best") != "best" else "") + (":dvjp" if cfg.get("dvjp") else "")
+    cul = culprit(circ, cfg)
     feat = ("bcast:" if circ.get("bcast") else "") + ("" if circ["lab"] == "std" else "labels:") + ("const-gate:" if "cRY" in circ["w"] else "")
+    where = cul if cul else f"{feat}{circ['share']}:{circ['meas']}:{'+'.join(sorted(set(circ['w'])))}"
+    if cul:
+        cls = f"{cfg['iface']}:{method}"
     if J.shape != Jref.shape:
-        return bad(f"jacobian-shape:{cls}:{feat}{circ['meas']}", list(J.shape), list(Jref.shape))
+        return bad(f"jacobian-shape:{cls}:{where}", list(J.shape), list(Jref.shape))
     err = float(np.max(np.abs(J - Jref))) if J.size else 0.0
     if not err <= tol:
-        worst = sorted({l for l in circ["w"]})
-        return bad(f"jacobian-value:{cls}:{feat}{circ['share']}:{circ['meas']}:{'+'.join(worst)}", np.round(J, 8), np.round(Jref, 8), err=err)
+        return bad(f"jacobian-value:{cls}:{where}", np.round(J, 8), np.round(Jref, 8), err=err)
     return ok(outcome=[np.round(Jref, 5).tolist()[:2], info and info["mode"]], nontrivial=bool(np.any(np.abs(Jref) > 1e-9)))
 
 
@@ -208,7 +237,8 @@ MEAS = ["E", "EE", "P", "EP", "V", "Ham"]
 
 
 def circuits(ctx):
-    """(circuit spec) list; simplest first."""
+    """(circuit spec) list; simplest first.  Thinning of the (pre-processing x measurement) product for longer words is a fixed
+    arithmetic pattern (no sampling): every letter, every pattern and every measurement list occurs with every other."""
     q = ctx.quick
     out = []
     words = [[l] for l in A1 if not (q and l == "DoubleExcitation")]
@@ -216,21 +246,19 @@ def circuits(ctx):
     words += [[a, b] for a in two for b in two]
     if not q:
         words += [list(w) for w in itertools.product(A3, repeat=3)]
-    for w in words:
+    for wi, w in enumerate(words):
         p = XD.n_gate_params(w)
         if p == 0:
             continue
         shares = [s for s in SHARES if s != "shared" or p >= 2]
+        keep = {1: 2 if q else 1, 2: 9 if q else 8, 3: 14}[len(w)]
         for si, share in enumerate(shares):
             for mi, meas in enumerate(MEAS):
-                # pairwise-style thinning for the long words: every (share, meas) pair still occurs for every letter pair in thorough
-                if len(w) >= 2 and q and (si + mi + len(w[0]) + len(w[1])) % 3:
+                if (si * len(MEAS) + mi + wi) % keep:
                     continue
-                if len(w) == 3 and (si + mi + len(w[0])) % 5:
-                    continue
-                lab = ["std", "str", "mix"][(len(w) + si + mi) % 3]
+                lab = ["std", "str", "mix"][(wi + si + mi) % 3]
                 out.append({"w": w, "share": share, "meas": meas, "lab": lab, "bcast": False})
-        if p >= 2 and len(w) <= 2:
+        if p >= 2 and len(w) <= 2 and wi % (3 if q else 2) == 0:
             for meas in ("E", "EP"):
                 out.append({"w": w, "share": "distinct", "meas": meas, "lab": "std", "bcast": True})
     return out
